@@ -9,7 +9,7 @@ CHECKS = {
         level="model_checking", engine="M (MIR->SMT) + driver grid",
         technique="SMT (cvc5/z3, bit-vectors + IEEE floats) over the MIR of the injection value closures; grid of source types through the real into_data_type with symbolic values; replay through the real injection",
         text="Every scalar conversion kernel (Boolean/Integer/Float) is translated from the MIR of the current tree and the solver decides injectivity, refusal of lossy values, round trip and monotonicity for all 2^64 inputs (pairs: 2^128); the type-level wrappers are run concretely on a boundary grid of source types and the solver searches the whole source type for a value whose conversion leaves the returned type. Bounded by: scalar variants only, grid of source types.",
-        note="Trusted: lib/mir.py translation + callee table (validated on concrete points against the real injections every run), rustc's MIR printer, cvc5/z3. Outside: ->Text/Bytes, Date/Time kernels (chrono), composite liftings.",
+        note="Trusted: lib/mir.py translation + callee table (validated on concrete points against the real injections every run), rustc's MIR printer, cvc5/z3. The type-level image of Integer -> Text is decided with the solvers' string theory (str.from_int) on a grid of source ranges. Outside: other ->Text/Bytes conversions, Date/Time kernels (chrono), composite liftings.",
         design="3 C12"),
     "C18": dict(
         level="model_checking", engine="M (MIR->SMT) + driver replay",
